@@ -842,6 +842,85 @@ end Made
 
 end SunpathObj
 
+/-! ### Round 6: Sunpath, period and date-time of different year kinds
+
+The Sunpath, its daylight-saving period and a DateTime argument each carry their own calendar
+(`is_leap_year`).  The code compares their minutes of the year as they are, so the answer is a
+function of three year-agnostic ordinals; an implementation that compares the objects themselves
+(which carry the stand-in year 2016 / 2017) is a different function as soon as two calendars meet. -/
+
+namespace SunTimes
+
+open Cal
+
+/-- Table fact: the leap calendar has one more day before every month from March on. -/
+theorem daysBefore_leap_shift : ∀ m ∈ List.range 13,
+    daysBefore true m = daysBefore false m + (if 3 ≤ m then 1 else 0) := by decide
+
+/-- THE TWO CALENDARS NUMBER THE MINUTES AT MOST ONE DAY APART.  The same (month, day, hour, minute)
+    read in the leap calendar is the same minute of the year in January and February and exactly
+    1440 minutes later from March on. -/
+theorem C11_moy_other_calendar (d : DT) (h12 : d.month ≤ 12) (hd : 1 ≤ d.day) :
+    ({ d with leap := true } : DT).moy =
+      ({ d with leap := false } : DT).moy + (if 3 ≤ d.month then 1440 else 0) := by
+  have h := daysBefore_leap_shift d.month (List.mem_range.mpr (by omega))
+  unfold DT.moy DT.intHoy DT.doy
+  simp only
+  rw [h]
+  split <;> omega
+
+/-- THE ANSWER CHANGES ONLY ACROSS AN END OF THE PERIOD: two minute numbers with no end of the
+    period in between (`m < end ≤ m'`) get the same daylight-saving answer (northern and wrapping). -/
+theorem C11_dst_changes_only_at_ends (ap : AP) (m m' : Nat) (hmm : m ≤ m')
+    (hst : ¬ (m < ap.stMoy ∧ ap.stMoy ≤ m')) (hen : ¬ (m < ap.endMoy ∧ ap.endMoy ≤ m')) :
+    isDst (some ap) m = isDst (some ap) m' := by
+  unfold isDst
+  simp only
+  split
+  · rw [decide_eq_decide]; omega
+  · rw [decide_eq_decide]; omega
+
+/-- YEAR-KIND MISMATCH.  A date-time handed over in the leap calendar gets the daylight-saving answer
+    of the same date in the normal calendar (and the reverse) unless an end of the period lies within
+    the one day by which the two calendars number that date apart.  (Whatever the calendar of the
+    period: only its two minute numbers enter.)  This is the clause the oracle op `dst_mixed` judges. -/
+theorem C11_dst_other_calendar (ap : AP) (d : DT) (h12 : d.month ≤ 12) (hd : 1 ≤ d.day)
+    (hst : ¬ (({ d with leap := false } : DT).moy < ap.stMoy ∧
+              ap.stMoy ≤ ({ d with leap := false } : DT).moy + 1440))
+    (hen : ¬ (({ d with leap := false } : DT).moy < ap.endMoy ∧
+              ap.endMoy ≤ ({ d with leap := false } : DT).moy + 1440)) :
+    isDst (some ap) ({ d with leap := true } : DT).moy =
+      isDst (some ap) ({ d with leap := false } : DT).moy := by
+  rw [C11_moy_other_calendar d h12 hd]
+  symm
+  apply C11_dst_changes_only_at_ends
+  · omega
+  · split <;> omega
+  · split <;> omega
+
+/-- The one-day band is real (so the oracle does not judge it): the normal-year period that starts on
+    8 March 2h already flags 7 March 12h of a leap-year date-time, and the leap-year date 8 March 12h
+    is flagged although one end lies in between the two numberings. -/
+theorem C11_dst_other_calendar_band_counterexample :
+    isDst (some ⟨3, 8, 2, 11, 1, 2, 1, false⟩) (⟨3, 7, 12, 0, true⟩ : DT).moy = true ∧
+    isDst (some ⟨3, 8, 2, 11, 1, 2, 1, false⟩) (⟨3, 7, 12, 0, false⟩ : DT).moy = false := by decide
+
+/-- YEAR-AGNOSTIC: the test sees a date-time only through its minute of the year – two date-times of
+    different calendars (different stand-in years) with the same minute number get the same answer,
+    for every period.  (An implementation ordering the date-time objects themselves violates this:
+    a 2016 object is before every 2017 object.) -/
+theorem C11_dst_year_agnostic (p : Option AP) (d d' : DT) (h : d.moy = d'.moy) :
+    isDst p d.moy = isDst p d'.moy := by rw [h]
+
+end SunTimes
+
+-- non-vacuity (round 6)
+example : (⟨4, 15, 9, 0, true⟩ : DT).month ≤ 12 ∧ 1 ≤ (⟨4, 15, 9, 0, true⟩ : DT).day ∧
+    SunTimes.isDst (some ⟨3, 8, 2, 11, 1, 2, 1, false⟩) (⟨4, 15, 9, 0, true⟩ : DT).moy = true ∧
+    SunTimes.isDst (some ⟨3, 8, 2, 11, 1, 2, 1, false⟩) (⟨4, 15, 9, 0, false⟩ : DT).moy = true := by decide
+example : (⟨1, 1, 0, 0, true⟩ : DT).moy = (⟨1, 1, 0, 0, false⟩ : DT).moy ∧
+    (⟨3, 1, 0, 0, true⟩ : DT).moy = (⟨3, 1, 0, 0, false⟩ : DT).moy + 1440 := by decide
+
 -- non-vacuity (round 4)
 example : (⟨10, 4, 2, 4, 5, 3, 1, false⟩ : AP).WF ∧ (⟨3, 8, 2, 11, 1, 2, 1, true⟩ : AP).WF := by decide
 example : C11Forms.lexLt (4, 5, 3) (10, 4, 2) ∧ ¬ C11Forms.lexLt (11, 1, 2) (3, 8, 2) := by decide
